@@ -561,6 +561,10 @@ def plan_C15(ctx):
         "for strings that are not valid UTF-8 only validity of the document is required"])
 
 
+def plan_C19(ctx):
+    return system_family(ctx, catname="MCCat19", quick_idx="Quick19", relabel="C19", extra_inv="InternTransparent", sweep=False)
+
+
 def plan_C17(ctx):
     return system_family(ctx, catname="MCCat17", quick_idx="Quick17", relabel="C17", extra_inv="ScopedDiffer", sweep=False)
 
@@ -614,7 +618,7 @@ def plan_C12(ctx):
     return codec_family(ctx, 6000, 200000, mc_cfgs_quick=("both", "pa"), rnd_cfg="mix")
 
 
-PLANS = {"C17": plan_C17, "C16": plan_C16, "C13": plan_C13, "C15": plan_C15, "C08": plan_C08, "C04": plan_C04, "C06": plan_C06, "C11": plan_C11, "C03": plan_C03, "C10": plan_C10, "C18": plan_C18, "C12": plan_C12, "C01": plan_C01, "C02": plan_C02, "C05": plan_C05, "C09": plan_C09, "C14": plan_C14}
+PLANS = {"C19": plan_C19, "C17": plan_C17, "C16": plan_C16, "C13": plan_C13, "C15": plan_C15, "C08": plan_C08, "C04": plan_C04, "C06": plan_C06, "C11": plan_C11, "C03": plan_C03, "C10": plan_C10, "C18": plan_C18, "C12": plan_C12, "C01": plan_C01, "C02": plan_C02, "C05": plan_C05, "C09": plan_C09, "C14": plan_C14}
 MODULES = {k: "TraceCodec" for k in PLANS}
 MODULES["C18"] = "TracePrim"
 MODULES["C03"] = MODULES["C10"] = "TraceDecode"
